@@ -91,6 +91,11 @@ CHECKS = {
          "A real h3 server with h3-webtransport over simnet, raw client: the CONNECT request is the (j+1)-th real request (j in {0,1,2,15,16,17}, random up to 40); peer-opened bidi (0x41) and uni (0x54, all varint forms) streams arrive in two steps cut at every offset of header+payload, with/without FIN; server-opened bidi/uni streams, one datagram each way, poll_data or AsyncRead with small buffers, the documented single-task select loop. session_id() == CONNECT stream id; server-opened streams start with type + that id + exactly the payload; attached SessionId == id on the wire; bytes read == bytes after the header; a complete header is surfaced without further bytes; with the extension disabled no uni stream is surfaced; never a connection error.",
          "trusted: reference varint; the application uses the documented single-task select pattern with persistent futures",
          "DESIGN.md section 3 C19"),
+ "C20": ("qpack-stateful",
+         "model-based property-based testing (stateful): generated workloads and delivery schedules drive h3's Encoder/Decoder next to an independent RFC 9204 dynamic-table decoder and reference bookkeeping",
+         "Workloads of 1..40 field sections over a small name/value alphabet (forcing duplicates, name references, evictions), capacities {0, one entry, 100, 256, 64..400, 4096}, blocked limits {0,1,2,100}, and tape-chosen schedules over {encode, deliver 1..n encoder-stream bytes, try to decode a pending section, acknowledge, deliver decoder-stream bytes, cancel a stream}. (1) h3's Decoder returns the original list once its dependencies were delivered and MissingRefs (never another list or error) before; no call of a legal exchange fails; (2) the independent reference decoder, fed the same bytes at emission, decodes every section to the original list; (3) the reference-tracked table never exceeds capacity and no instruction evicts an entry referenced by a section whose acknowledgement has not reached the encoder. One known finding (encoder evicts unacknowledged insertions and outruns the Required-Insert-Count window) is excluded by an exact predicate and counted.",
+         "trusted: src/reference/qpack_dyn.rs (self-tested against RFC 9204 Appendix B); legal exchange = acks only for sections with non-zero Required Insert Count, per stream in order, no traffic on a cancelled stream",
+         "DESIGN.md section 3 C20"),
 }
 
 NOT_YET = "check not built yet in this session (see DESIGN.md section 5 for the construction order); no claim is made"
@@ -138,6 +143,7 @@ def main():
         },
         "engines": [
             {"name": "codec", "path": "harness/src/props (E1)", "serves_properties": ["C02", "C11", "C12", "C15", "C16", "C18"], "kind_free_text": "pure codec functions called directly; proptest over choice tapes, exhaustive loops, libFuzzer targets with the oracle inside"},
+            {"name": "qpack-stateful", "path": "harness/src/props/c20.rs + harness/src/reference/qpack_dyn.rs (E5)", "serves_properties": ["C20"], "kind_free_text": "h3's stateful QPACK Encoder/Decoder (hook re-export) driven by generated workloads and delivery schedules next to a reference decoder"},
             {"name": "simnet", "path": "harness/src/simnet (E2)", "serves_properties": ["C01", "C03", "C04", "C06", "C07", "C08", "C09", "C10", "C12", "C13", "C14", "C19"], "kind_free_text": "real h3 client/server over a deterministic in-memory QUIC transport with a tape-driven scheduler and executor"},
         ],
         "checks": checks,
